@@ -56,7 +56,7 @@ static Built build(vrt::Rng &r, bool mesh, GeometryAttribute::Type type, int nc,
   return b;
 }
 
-struct RowOpt { int mode; int es; int pred; bool builtin; bool expert; };   // mode 0 pc seq, 1 pc kd, 2 mesh eb, 3 mesh seq
+struct RowOpt { int mode; int es; int pred; bool builtin; bool expert; bool reuse = false; };   // mode 0 pc seq, 1 pc kd, 2 mesh eb, 3 mesh seq
 
 static Encoded encode_row(const Built &b, const RowOpt &ro, int q, bool use_explicit, const std::vector<float> &origin, float range, int idq) {
   Opt o;
@@ -80,7 +80,11 @@ static Encoded encode_row(const Built &b, const RowOpt &ro, int q, bool use_expl
     if (b.aux >= 0) enc->SetAttributeQuantization(b.aux, 12);
     st = enc->EncodeToBuffer(&eb);
   } else {
-    Encoder enc;
+    // C12 only (use_explicit): the type-keyed Encoder object is reusable; every other row re-uses ONE object that has served all earlier rows with other
+    // origins / ranges / bits (only rows that leave the prediction scheme alone, so that no setting of an earlier row survives except by mistake)
+    static Encoder reused;
+    Encoder fresh;
+    Encoder &enc = (use_explicit && ro.pred == -100 && ro.reuse) ? reused : fresh;
     enc.SetSpeedOptions(ro.es, ro.es);
     enc.SetEncodingMethod(b.g.is_mesh ? (o.method ? MESH_EDGEBREAKER_ENCODING : MESH_SEQUENTIAL_ENCODING) : (o.method ? POINT_CLOUD_KD_TREE_ENCODING : POINT_CLOUD_SEQUENTIAL_ENCODING));
     const GeometryAttribute::Type t = b.g.pc->attribute(b.att)->attribute_type();
@@ -296,7 +300,12 @@ static int run_c12(uint64_t seed, long scenarios) {
       for (int i = 0; i < ni; ++i) { std::vector<float> p(3); for (int c = 0; c < 3; ++c) p[c] = (float)((r.unit() - 0.5) * mag); vals.push_back(p); }
       // different point order per tile
       if (tile == 1) std::reverse(vals.begin(), vals.end());
+      // a tight cluster first, the spread-out points last: what is coded for the early points says nothing about the late ones
+      const bool clustered = r.coin(1, 3);
+      if (clustered) std::stable_sort(vals.begin(), vals.end(), [&](const std::vector<float> &a, const std::vector<float> &b) {
+        return std::abs(a[0]) + std::abs(a[1]) + std::abs(a[2]) < std::abs(b[0]) + std::abs(b[1]) + std::abs(b[2]); });
       RowOpt ro = gen_rowopt(r);
+      ro.reuse = r.coin();
       if (q > 20 && ro.mode >= 2) { ro.es = std::max(ro.es, 2); if (ro.pred == MESH_PREDICTION_CONSTRAINED_MULTI_PARALLELOGRAM) ro.pred = MESH_PREDICTION_PARALLELOGRAM; }
       // the coordinates are positions themselves, or a generic attribute next to separately quantised float positions; in the second case the
       // stream is also decoded with the POSITION transform skipped -- an unrelated decoder option must not change the generic values ("xd2")
@@ -318,7 +327,7 @@ static int run_c12(uint64_t seed, long scenarios) {
         ks += vs.ok ? jarr(vs.k[i]) : "[]";
         if (extra_type && vo.ok) { if (i) xo += ","; xo += jf(vo.x[i]); }
       }
-      out.b("extra", extra_type).b("other_skip_ok", !extra_type || vo.ok).raw("x", xs + "]").raw("xd", xd + "]").raw("k", ks + "]").raw("xd2", xo + "]").end();
+      out.b("clustered", clustered).b("reuse", ro.reuse && !ro.expert && ro.pred == -100).b("extra", extra_type).b("other_skip_ok", !extra_type || vo.ok).raw("x", xs + "]").raw("xd", xd + "]").raw("k", ks + "]").raw("xd2", xo + "]").end();
     }
   }
   return 0;
